@@ -192,7 +192,8 @@ def trace(it):
 class C15(Check):
     pid = 'C15'
     level = 'exploration'
-    rule = ('Three kinds of generated cases: (a) histories of 1-6 runs on one thread - successful (C01-language programs, judged by '
+    rule = ('[histories keep date condition objects from run to run and compare every successful run with the same run alone; '
+            'thread simulations own a pipe with a transfer in flight] Three kinds of generated cases: (a) histories of 1-6 runs on one thread - successful (C01-language programs, judged by '
             'the C01 clock model), failing roots, leaking roots (return values incl. falsy ones), nested run(), runs that end with '
             'live tasks waiting for each other (abrupt failure / till / blocked), a run that calls gc.collect(), probes in between; '
             '(b) nesting: an outer program with a nested run() inserted at a generated step vs. the same programs run separately; '
@@ -295,6 +296,8 @@ class C15(Check):
                         out.fail('failure', 'ran_on_after_failure', 'run #%d: %r after the failure' % (n, late[0][1:5]))
             elif k == 'leak':
                 special += 1
+                if not prog['roots'] or not any(s_['op'] == 'return' for s_ in prog['roots'][-1]['steps']):
+                    raise InvalidCase('a leaking run needs a root that returns a value')      # (shrinking produces these)
                 if oc != 'exc' or not isinstance(exc, RuntimeError):
                     out.fail('leak', 'not_reported:%s' % type(op['v']).__name__ + ('_falsy' if not op['v'] else ''),
                              'run #%d: root returned %r but run() ended %s %r' % (n, op['v'], oc, exc))
